@@ -139,6 +139,44 @@ def run(tier, seed):
         if d_["failing_input"] is None:
             d_["failing_input"] = bad_oracle
             d_.pop("_t", None)
+    # the solver's own first sweeps from the problem's own initial estimates, which may be integer-typed (`return 0`, an integer heuristic):
+    # every sweep — the first one included — must be the block Gauss-Seidel update of exact values (nothing may be truncated on the way)
+    from harness.c08 import compare_state
+    own_ops = []
+    for j, idt in enumerate(["pyint0", "int32", "int32", "float32"]):
+        spec = gen.gen_spec(rng, S=rng.choice([5, 6, 7, 9]), A=rng.choice([2, 3]), kind=rng.choice(["random", "unichain"]), denom=4, R=5, init=(idt != "pyint0"),
+                            tiny=False, near_tie=False)
+        spec["init_dtype"] = idt
+        # non-integer rewards, so that a value truncated on the way is visible at once
+        spec["rew"] = [[[x + 0.5 for x in row] for row in a] for a in spec["rew"]]
+        spec["rew_dtype"] = "float64"
+        S = spec_size(spec)
+        own_ops.append({"op": "problem", "id": f"own{j}", "spec": {k: v for k, v in spec.items() if not k.startswith("_")}, "_tags": ["own-initial-estimates:" + idt]})
+        for mb in (1, 2):
+            for sh in (0, 1):
+                sid = f"own{j}_{mb}_{sh}"
+                own_ops.append({"op": "new", "sid": sid, "solver": "semi", "id": f"own{j}", "maxbs": mb, "gamma": "1/2", "eps": "1/1048576", "test": "max_diff",
+                                "shuffle": sh, "random_seed": 3 + j, "n_hint": S, "dev_hint": 1})
+                for k in (1, 1, 2):
+                    own_ops.append({"op": "solve", "sid": sid, "k": k})
+    tabs_own, news_own, total_own = {}, {}, {}
+    for (op, m, i, line) in session.run_session(own_ops, 1):
+        if op["op"] == "problem":
+            tabs_own[op["id"]] = oracle.Tab.from_line(i)
+            for tg in op.get("_tags", []):
+                res.count("tag:" + tg)
+        elif op["op"] == "new":
+            news_own[op["sid"]] = op; total_own[op["sid"]] = 0
+        elif op["op"] == "solve" and m is not None:
+            new = news_own[op["sid"]]
+            total_own[op["sid"]] += op["k"]
+            res.evaluations += 1
+            res.nontrivial.add(("own", op["sid"], total_own[op["sid"]]))
+            for key, fail in compare_state(res, op, new, tabs_own[new["id"]], m, i, line, 1, total_own[op["sid"]]):
+                res.disagreements.append({"channel": f"C06/own-initial-estimates/{key}", "case": {"new": {k: v for k, v in new.items() if not k.startswith("_")}, "k": op["k"],
+                                          "sweeps_so_far": total_own[op["sid"]], "driver_line": line}, "model": m[:500], "impl": i[:500], "failing_input": fail,
+                                          "what": f"{key} after the solver's own sweeps from the problem's own (possibly integer-typed) initial estimates differ from block Gauss-Seidel",
+                                          "key": f"own:{key}"})
     # reproducibility: two solvers with the same seed produce the same permutation sequence and values
     spec = specs[0]
     S = spec_size(spec)
